@@ -14,6 +14,10 @@ FlowReader and must
     5-line framing parser, not by the writer), in order, each with the state of the flow that was written,
   * then end cleanly (mandatory when the offset is 0 or a record end) or raise FlowReadException — any other exception,
     a flow built from a partial record, or a lost complete flow is a violation.
+The same crash points are also pushed through the user-facing loaders (see loading_paths): ReadFile.load_flows /
+load_flows_from_path (rfile, -r) with a master that records load_flow calls (every 5th offset, every offset within 2
+bytes of a record end, a few really truncated files) and View.load_file (view.flows.load): exactly the k complete
+flows must arrive, in order.
 """
 import io
 import os
@@ -25,7 +29,9 @@ import flowgen as fg
 from runner import HarnessError, hyp, repo_frame
 
 from mitmproxy import exceptions
+from mitmproxy.addons import readfile as readfile_addon
 from mitmproxy.addons import save as save_addon
+from mitmproxy.addons import view as view_addon
 from mitmproxy.io import FlowReader
 from mitmproxy.test import taddons
 
@@ -147,6 +153,100 @@ def _states(flows):
     return [fg.listify(f.get_state()) for f in flows]
 
 
+def _strip_id(s):
+    s = dict(s)
+    s.pop("id", None)
+    return s
+
+
+def loading_paths(data, expect_states, ctx, label, path):
+    """The same crash points through the user-facing loaders: the ReadFile addon (rfile / -r: load_flows on a
+    stream for every 5th offset and every offset within 2 bytes of a record end, load_flows_from_path on a really
+    truncated file for a few offsets) with a master that records load_flow calls, and View.load_file
+    (view.flows.load).  A damaged tail may cost the partial record only: exactly the k complete flows must be handed
+    over, in order; the ReadFile paths must end with the count k (cut at a record end) or FlowReadException."""
+    ends = record_ends(data)
+    phase = hash(data) % 5
+    near = set()
+    for e in [0] + ends:
+        near.update(range(max(0, e - 2), min(len(data), e + 2) + 1))
+    rf = readfile_addon.ReadFile()
+    with taddons.context(rf) as tctx:
+        loaded = []
+
+        async def record(f):
+            loaded.append(f)
+
+        tctx.master.load_flow = record
+        loop = tctx.master.event_loop
+
+        def one(off, via_path):
+            k = sum(1 for e in ends if e <= off)
+            boundary = off == 0 or off in ends
+            del loaded[:]
+            ctx.ev()
+            try:
+                if via_path:
+                    with open(path, "wb") as fh:
+                        fh.write(data[:off])
+                    cnt = loop.run_until_complete(rf.load_flows_from_path(path))
+                else:
+                    cnt = loop.run_until_complete(rf.load_flows(io.BytesIO(data[:off])))
+                outcome = "clean"
+            except exceptions.FlowReadException:
+                cnt, outcome = None, "flowreadexc"
+            except Exception as e:  # noqa
+                ctx.fail("readfile-other-exception:%s@%s" % (type(e).__name__, repo_frame(e)), "%s: offset %d of %d: %r" % (label, off, len(data), e))
+                return
+            what = "readfile-path" if via_path else "readfile"
+            if not boundary:
+                ctx.nt((hash(data), len(data), off, what))
+            if len(loaded) != k:
+                ctx.fail("%s-%s:%s" % (what, "complete-flow-lost" if len(loaded) < k else "partial-flow-loaded", label),
+                         "offset %d of %d (record ends %r): %d flows handed to the master, %d complete, outcome %s" % (off, len(data), ends, len(loaded), k, outcome))
+                return
+            if [fg.listify(g.get_state()) for g in loaded] != expect_states[:k]:
+                ctx.fail("%s-flow-state-differs:%s" % (what, label), "offset %d" % off)
+            if boundary and outcome != "clean":
+                ctx.fail("%s-error-at-record-boundary:%s" % (what, label), "offset %d of %d is a record end" % (off, len(data)))
+            if outcome == "clean" and cnt != k:
+                ctx.fail("%s-count:%s" % (what, label), "offset %d: returned %r, %d flows complete" % (off, cnt, k))
+
+        n = 0
+        for off in range(len(data) + 1):
+            if off % 5 == phase or off in near:
+                one(off, False)
+                n += 1
+        picks = sorted({len(data), max(0, len(data) - 1), ends[0] if ends else 0, (ends[0] // 2) if ends else 0,
+                        (ends[-2] + (ends[-1] - ends[-2]) // 2) if len(ends) > 1 else 0})
+        for off in picks:
+            one(off, True)
+        ctx.cls("offsets:readfile", n + len(picks))
+    # View.load_file (view.flows.load): flows get new ids, so compare the rest of the state
+    v = view_addon.View()
+    with taddons.context(v):
+        for off in picks:
+            k = sum(1 for e in ends if e <= off)
+            with open(path, "wb") as fh:
+                fh.write(data[:off])
+            ctx.ev()
+            try:
+                v.load_file(path)
+            except Exception as e:  # noqa
+                ctx.fail("view-load-exception:%s@%s" % (type(e).__name__, repo_frame(e)), "%s: offset %d of %d: %r" % (label, off, len(data), e))
+                v.clear()
+                continue
+            got = [_strip_id(fg.listify(g.get_state())) for g in v._store.values()]
+            want = [_strip_id(x) for x in expect_states[:k]]
+            if len(got) != len(want):
+                ctx.fail("view-load-%s:%s" % ("complete-flow-lost" if len(got) < len(want) else "partial-flow-loaded", label),
+                         "offset %d of %d (record ends %r): %d flows in the view, %d complete" % (off, len(data), ends, len(got), k))
+            elif sorted(map(fg.canon_repr, got)) != sorted(map(fg.canon_repr, want)):
+                ctx.fail("view-load-flow-state-differs:" + label, "offset %d" % off)
+            v.clear()
+        ctx.cls("offsets:view", len(picks))
+
+
 def check_case(case, ctx):
     descs = case["flows"]
     flows = [fg.build(d) for d in descs]
@@ -164,14 +264,19 @@ def check_case(case, ctx):
                     sa.save(flows[k:], "+" + path)
                 with open(path, "rb") as fh:
                     data = fh.read()
-                enumerate_offsets(data, _states(flows), ctx, "save" + ("+append" if k < len(flows) else ""))
+                label = "save" + ("+append" if k < len(flows) else "")
+                enumerate_offsets(data, _states(flows), ctx, label)
+                final_states = _states(flows)
             else:
                 written = _run_stream(case, descs, flows, sa, tctx, path, ctx)
                 if written is None:
                     return
                 with open(path, "rb") as fh:
                     data = fh.read()
-                enumerate_offsets(data, written, ctx, "stream")
+                label = "stream"
+                enumerate_offsets(data, written, ctx, label)
+                final_states = written
+        loading_paths(data, final_states, ctx, label, path)
     finally:
         try:
             os.unlink(path)
